@@ -26,6 +26,7 @@ type funcPrint struct {
 	Calls   []string `json:"calls"`
 	Loops   int      `json:"loops"`
 	Nest    string   `json:"nest"`
+	Carried []string `json:"carried,omitempty"`
 }
 
 type funcBaseline map[string]map[string]*funcPrint // package dir -> raw key -> print
@@ -64,7 +65,7 @@ func cmdFunctions(args []string) {
 			if strings.Contains(k, "$") {
 				continue
 			}
-			m[k] = &funcPrint{Params: s.params, Results: s.results, Calls: s.calls, Loops: s.loops, Nest: s.nest}
+			m[k] = &funcPrint{Params: s.params, Results: s.results, Calls: s.calls, Loops: s.loops, Nest: s.nest, Carried: s.carried}
 		}
 		fb[dir] = m
 	}
@@ -354,4 +355,34 @@ func bareName(raw string) string {
 		return raw[i+2:]
 	}
 	return raw
+}
+
+// newAccumulator: name is a variable the loops of fn carry around that the recorded version of the function did not
+// have (by name). False when the function is not in the record.
+func (e *Engine) newAccumulator(fn *ssa.Function, name string) bool {
+	dir, key, ok := rawKeyOf(fn)
+	if !ok || e.funcBase == nil {
+		return false
+	}
+	old := e.funcBase[dir][key]
+	if old == nil {
+		for o, n := range e.renamedKey {
+			if n == contractKey(dir, key) {
+				for k2, fp := range e.funcBase[dir] {
+					if contractKey(dir, k2) == o {
+						old = fp
+					}
+				}
+			}
+		}
+	}
+	if old == nil {
+		return false
+	}
+	for _, c := range old.Carried {
+		if c == name {
+			return false
+		}
+	}
+	return true
 }
